@@ -135,3 +135,207 @@ def c03(ctx):
                 "mixed inputs / an update after a write.")
     ctx.assumptions += ["timestamps are ranks in the specifications; every strictly monotone map to i64 is a sound concretisation"]
     ctx.exhaustive = False
+
+
+def units_cfg(family, dimcheck=True, maxlen=12):
+    return cfg_text(constants={"Family": family, "DimCheck": dimcheck, "MaxLen": maxlen, "Emit": True},
+                    invariants=["Laws", "EmitInv"], constraints=["WalkBound"])
+
+
+def run_units(ctx, dimcheck=True, walks=300, features=None, tag="default"):
+    with cf.ThreadPoolExecutor(max_workers=4) as ex:
+        fb = ex.submit(build_harness, ["units"], features, tag)
+        futs = [ex.submit(run_tlc, ctx, "Units", units_cfg("grid", dimcheck), "grid", 4),
+                ex.submit(run_tlc, ctx, "Units", units_cfg("names", dimcheck), "names", 1),
+                ex.submit(run_tlc, ctx, "Units", units_cfg("walk", dimcheck), "walk", 2, walks, 14)]
+        results = [tlc_ok(f.result()) for f in futs]
+        bindir = fb.result()
+    allb = vlib.concat([r["behaviours"] for r in results], os.path.join(ctx.out, "units.ndjson"))
+    if min(r["n"] for r in results) == 0:
+        raise ToolError("TLC emitted no cases for one of the families (vacuous run)")
+    mism, summary, other = run_bin(bindir, "units", ["replay", allb, ctx.seed], timeout=1200)
+    ctx.evaluations += summary.get("replays", 0)
+    ctx.traces += summary.get("behaviours", 0)
+    ctx.extra["units_replay_summary"] = summary
+    ctx.notes += [l for l in other if l.startswith("NOTE")]
+    for k in range(summary.get("nontrivial", 0)):
+        ctx.nontrivial.add(("units", k))
+    lines = vlib.read_ndjson(allb, limit=57000)
+    for b in (lines[100], lines[30000], lines[-1]):
+        ctx.sample(b)
+    for m in mism[:60]:
+        rec = json.loads(vlib.nth_line(allb, m["line"]))
+        c = rec.get("case", {})
+        sig = "units:%s:%s:%s" % (m["family"], c.get("form", "walk"), "%s-%s" % (c.get("l", {}).get("k", ""), c.get("r", {}).get("k", "")))
+        ctx.violation(sig, {"replay_kind": "units", "case": rec, "mismatch": m, "seed": ctx.seed, "features": features, "tag": tag},
+                      "%s case #%d %s: %s; specification predicts %s, implementation gave %s" % (
+                          m["family"], m["line"], json.dumps(c or rec.get("steps")), m["what"], json.dumps(m["exp"]), json.dumps(m["got"])))
+    return summary
+
+
+@replayer("units")
+def replay_units(pid, v):
+    out = os.path.join(vlib.OUT, pid)
+    os.makedirs(out, exist_ok=True)
+    bp = os.path.join(out, "replay_one.ndjson")
+    open(bp, "w").write(json.dumps(v["case"]) + "\n")
+    bindir = build_harness(["units"], v.get("features"), v.get("tag", "default"))
+    mism, summary, _ = run_bin(bindir, "units", ["replay", bp, v.get("seed", 1)])
+    return mism[0] if mism else None
+
+
+@register("C01")
+def c01(ctx):
+    q = ctx.tier == "quick"
+    run_units(ctx, True, 300 if q else 5000)
+    ctx.rule = ("grid: every operator form of the three documentation tables that yields a Quantity or a Unit (binary, assign, unary, orderings, "
+                "==; Quantity, bare Unit, Time and DimensionlessInteger operands) x every ordered pair of the 49 grid units (~56 000 cases), "
+                "each executed 3 times on random finite values, unit compared with the prediction, panic <=> predicted, value bits compared "
+                "with the plain f32 operator; names: the 49 constants against the documented grammar and the PositionDerivative / Command / "
+                "MotionProfilePiece conversions over all 49 units; walk: random chains of 12 operations with exponents up to |60| on a Quantity "
+                "and a bare Unit in lock-step. Non-trivial = operands with different units (grid), every name/walk case.")
+    ctx.assumptions += ["dimension checking compiled in (harness feature dimcheck = rrtk/dim_check_release)",
+                        "Time operands |t| < 4e12 ns, integer operands |n| < 1e5 (value clause; exact integer arithmetic is C18's)"]
+    ctx.exhaustive = True
+
+
+def trace_check(ctx, module, bindir, binname, rec_args, name, what, replay_kind, timeout=900, constants=None):
+    """record a trace from the real code and let TLC validate it against spec/<module>.tla"""
+    tp = os.path.join(ctx.out, name + ".trace.ndjson")
+    run_bin(bindir, binname, ["record", tp] + rec_args, timeout=timeout)
+    info = vlib.validate_trace(ctx, module, tp, name, constants=constants, timeout=timeout)
+    ctx.evaluations += info["events"]
+    if info["accepted"]:
+        ctx.traces += 1
+        ctx.extra.setdefault("traces", []).append({"module": module, "events": info["events"], "accepted": True})
+        return True
+    unmatched = [m for m in info["msgs"] if "first unmatched event" in m]
+    if not unmatched:
+        raise ToolError("trace validation of %s failed without identifying an event: %s" % (tp, " | ".join(info["errors"][:8])))
+    keep = os.path.join(ctx.out, name + ".rejected.ndjson")
+    import shutil
+    shutil.copy(tp, keep)
+    ctx.violation("%s:trace" % module, {"replay_kind": replay_kind, "trace": keep, "record_args": rec_args, "first_unmatched": unmatched[0]},
+                  "%s: the trace recorded from the implementation is not a behaviour of %s.tla; %s" % (what, module, unmatched[0][:500]))
+    return False
+
+
+@replayer("timeint_cases")
+def replay_ti(pid, v):
+    out = os.path.join(vlib.OUT, pid)
+    os.makedirs(out, exist_ok=True)
+    bp = os.path.join(out, "replay_one.ndjson")
+    open(bp, "w").write(json.dumps(v["case"]) + "\n")
+    bindir = build_harness(["timeint"])
+    mism, summary, _ = run_bin(bindir, "timeint", ["replay", bp, v.get("seed", 1)])
+    return mism[0] if mism else None
+
+
+@replayer("timeint_trace")
+def replay_ti_trace(pid, v):
+    ctx = vlib.Ctx(pid + "_replay", "quick", 1)
+    bindir = build_harness(["timeint"])
+    ok = trace_check(ctx, "TimeIntTrace", bindir, "timeint", v["record_args"], "conv", "Time <-> Quantity conversions", "timeint_trace")
+    return None if ok else ctx.violations[0][2]
+
+
+def ti_cfg(family, dimcheck=True):
+    return cfg_text(constants={"Family": family, "DimCheck": dimcheck, "Emit": True}, invariants=["Laws", "EmitInv"])
+
+
+@register("C18")
+def c18(ctx):
+    q = ctx.tier == "quick"
+    with cf.ThreadPoolExecutor(max_workers=4) as ex:
+        fb = ex.submit(build_harness, ["timeint"])
+        futs = [ex.submit(run_tlc, ctx, "TimeInt", ti_cfg(f), f, 2) for f in ("int", "mixed", "conv")]
+        results = [tlc_ok(f.result()) for f in futs]
+        bindir = fb.result()
+    allb = vlib.concat([r["behaviours"] for r in results], os.path.join(ctx.out, "cases.ndjson"))
+    if min(r["n"] for r in results) == 0:
+        raise ToolError("TLC emitted no cases for one of the families")
+    mism, summary, _ = run_bin(bindir, "timeint", ["replay", allb, ctx.seed], timeout=1200)
+    ctx.evaluations += summary.get("replays", 0)
+    ctx.traces += summary.get("behaviours", 0)
+    ctx.extra["replay_summary"] = summary
+    for k in range(summary.get("nontrivial", 0)):
+        ctx.nontrivial.add(k)
+    lines = vlib.read_ndjson(allb)
+    for b in (lines[5000], lines[-700], lines[-100]):
+        ctx.sample(b)
+    for m in mism[:40]:
+        rec = lines[m["line"]]
+        c = rec["case"]
+        ctx.violation("timeint:%s:%s:%s-%s" % (m["family"], c.get("form"), c.get("lk", ""), c.get("rk", "")),
+                      {"replay_kind": "timeint_cases", "case": rec, "mismatch": m, "seed": ctx.seed},
+                      "%s case #%d %s: %s; specification predicts %s, implementation gave %s" % (
+                          m["family"], m["line"], json.dumps(c), m["what"], json.dumps(m["exp"]), json.dumps(m["got"])))
+    # impl -> spec: arbitrary 64-bit times and f32 seconds, validated by TLC against the conversion relation
+    trace_check(ctx, "TimeIntTrace", bindir, "timeint", [ctx.seed, 6400 if q else 64000], "conv",
+                "Time <-> Quantity conversions", "timeint_trace")
+    ctx.rule = ("int: every integral operator form x operand pairs in -12..12, each executed under 9+ power-of-two scalings up to 2^58 "
+                "(homomorphic concretisation); mixed: every mixed form x 49 units, 4 random value bindings, compared with the Quantity "
+                "operator after conversion; conv: exact sub-domain both directions and refusal of the 48 other units; trace: sorted batches "
+                "of random i64 times stratified over magnitudes 0..2^62 and random f32 seconds, validated event by event by TLC against "
+                "TimeIntTrace.tla (2-ulp, monotonicity, round-trip and truncation bounds as integer inequalities). "
+                "Non-trivial = both operands non-zero / every mixed, conv case.")
+    ctx.assumptions += ["the recorder computes the correctly rounded reference quotient and the error bounds in exact 128-bit integer arithmetic "
+                        "(the observer is trusted for that arithmetic; TLC evaluates the inequalities)"]
+    ctx.exhaustive = False
+
+
+KIN_FAMILIES = ("update", "setter", "cmd", "arith", "chain")
+
+
+def run_kin(ctx, dimcheck=True, features=None, tag="default"):
+    cfg = lambda f: cfg_text(constants={"Family": f, "DimCheck": dimcheck, "Emit": True}, invariants=["Laws", "EmitInv"])
+    with cf.ThreadPoolExecutor(max_workers=5) as ex:
+        fb = ex.submit(build_harness, ["kin"], features, tag)
+        futs = [ex.submit(run_tlc, ctx, "Kinematics", cfg(f), f, 1) for f in KIN_FAMILIES]
+        results = [tlc_ok(f.result()) for f in futs]
+        bindir = fb.result()
+    allb = vlib.concat([r["behaviours"] for r in results], os.path.join(ctx.out, "kin.ndjson"))
+    if min(r["n"] for r in results) == 0:
+        raise ToolError("TLC emitted no cases for one of the families")
+    mism, summary, _ = run_bin(bindir, "kin", ["replay", allb, ctx.seed], timeout=1200)
+    ctx.evaluations += summary.get("replays", 0)
+    ctx.traces += summary.get("behaviours", 0)
+    ctx.extra["kin_replay_summary"] = summary
+    for k in range(summary.get("nontrivial", 0)):
+        ctx.nontrivial.add(("kin", k))
+    lines = vlib.read_ndjson(allb)
+    for b in (lines[17], lines[400], lines[-300], lines[-1]):
+        ctx.sample(b)
+    for m in mism[:40]:
+        rec = lines[m["line"]]
+        c = rec["case"]
+        ctx.violation("kin:%s:%s" % (m["family"], m["what"].split(" (")[0]),
+                      {"replay_kind": "kin", "case": rec, "mismatch": m, "seed": ctx.seed, "features": features, "tag": tag},
+                      "%s case #%d %s: %s; specification predicts %s, implementation gave %s (concretisation %s)" % (
+                          m["family"], m["line"], json.dumps(c), m["what"], json.dumps(m["exp"]), json.dumps(m["got"]), json.dumps(m["conc"])))
+    return summary
+
+
+@replayer("kin")
+def replay_kin(pid, v):
+    out = os.path.join(vlib.OUT, pid)
+    os.makedirs(out, exist_ok=True)
+    bp = os.path.join(out, "replay_one.ndjson")
+    open(bp, "w").write(json.dumps(v["case"]) + "\n")
+    bindir = build_harness(["kin"], v.get("features"), v.get("tag", "default"))
+    mism, summary, _ = run_bin(bindir, "kin", ["replay", bp, v.get("seed", 1)])
+    return mism[0] if mism else None
+
+
+@register("C14")
+def c14(ctx):
+    run_kin(ctx)
+    ctx.rule = ("update: all 64 state triples over {-2,0,1,3} x dt in {-4,-1,0,1,2} ticks; setter: 5 states x 3 setters x 49 units (and raw "
+                "forms) x 2 values; cmd: command-from-state for all 64 triples, accessors / conversions / round trips for 3 kinds x 4 values, "
+                "State::new with one wrongly dimensioned argument over the 49 units; arith: state and command operators with their assign "
+                "forms, 3x3 kind pairs for the panicking add/sub; chain: setter -> update -> command-from-state. Each case runs under 7 "
+                "concretisations (tick 1/8 s .. 16 s by rescaling velocity and acceleration; value scales 2^-140 .. 2^60 so that tiny and "
+                "subnormal derivatives still count as non-zero). TLC checks the textbook form, identity at dt = 0 and reversibility.")
+    ctx.assumptions += ["values are small rationals; agreement within 2^-16 of the largest term that feeds a component, bit-exact for setters, "
+                        "accessors, command-from-state and round trips"]
+    ctx.exhaustive = True
